@@ -47,3 +47,71 @@ class FalsyElements(BObl):
 
 
 OBLIGATIONS = [FalsyElements()]
+
+
+class SubclassedDefault(BObl):
+    id = 'C16.B.subclassed-default'
+    property = 'C16'
+    rule = ('the configured renderer is a subclass of a default renderer with its own handler table (one element kind '
+            'overridden by a marker, or `render` overridden); database-level and element-level texts must both come '
+            'from the subclass: the marker appears in db text once per element of that kind')
+    bound = 'exhaustive: {sql, dbml} x overridden kind x {own registry, overridden render} x {constructor, parser} route'
+
+    def cases(self, tier, seed):
+        for lang in ('sql', 'dbml'):
+            for kind in ('Table', 'Enum', 'Reference'):
+                for how in ('registry', 'render'):
+                    for route in ('ctor', 'parser'):
+                        yield {'lang': lang, 'kind': kind, 'how': how, 'route': route}
+
+    def exhaustive(self, tier):
+        return True
+
+    def check(self, r):
+        import pydbml.classes as C
+        from pydbml import PyDBML, Database
+        from pydbml.renderer.sql.default import DefaultSQLRenderer
+        from pydbml.renderer.dbml.default import DefaultDBMLRenderer
+        base = DefaultSQLRenderer if r['lang'] == 'sql' else DefaultDBMLRenderer
+        kind = getattr(C, r['kind'])
+        marker = f'<<{r["kind"]}-by-subclass>>'
+        if r['how'] == 'registry':
+            class Sub(base):
+                model_renderers = dict(base.model_renderers)
+            Sub.model_renderers[kind] = lambda model: marker
+        else:
+            class Sub(base):
+                @classmethod
+                def render(cls, model):
+                    if type(model) is kind:
+                        return marker
+                    return super().render(model)
+        src = ('Enum e {\n a\n b\n}\nTable t {\n id int [pk]\n k e\n}\nTable u {\n id int\n tid int\n}\n'
+               'Ref: u.tid > t.id\n')
+        kw = {'sql_renderer': Sub} if r['lang'] == 'sql' else {'dbml_renderer': Sub}
+        if r['route'] == 'parser':
+            db = PyDBML(src, **kw)
+        else:
+            parsed = PyDBML(src)
+            db = Database(**kw)
+            for e in parsed.enums:
+                parsed_e = e
+            # rebuild through the public API
+            from pydbml.classes import Table, Column, Enum, EnumItem, Reference
+            en = Enum('e', [EnumItem('a'), EnumItem('b')])
+            t = Table('t', columns=[Column('id', 'int', pk=True), Column('k', en)])
+            u = Table('u', columns=[Column('id', 'int'), Column('tid', 'int')])
+            db.add(en), db.add(t), db.add(u)
+            db.add(Reference('>', u['tid'], t['id']))
+        text = getattr(db, r['lang'])
+        elems = {'Table': db.tables, 'Enum': db.enums, 'Reference': db.refs}[r['kind']]
+        for e in elems:
+            if getattr(e, r['lang']) != marker:
+                return (f'element-not-through-configured:{r["lang"]}:{r["kind"]}', repr(getattr(e, r['lang']))[:300])
+        if text.count(marker) != len(elems):
+            return (f'db-not-through-configured:{r["lang"]}:{r["kind"]}:{r["how"]}',
+                    f'marker appears {text.count(marker)} times, {len(elems)} elements:\n{text[:500]}')
+        return None
+
+
+OBLIGATIONS.append(SubclassedDefault())
